@@ -178,24 +178,25 @@ def handle (st : St) (line : String) : St × String :=
   | ["points", n, ps] => match parsePts ps with
     | some xs => ({ st with points := (n, xs) :: st.points }, "ok")
     | none => (st, "bad-op")
-  | "el" :: n :: ws => match toksOfWords ws with
-    | some ts => match parse ts with
-      | some p => ({ st with els := st.els ++ [(n, erase p)] }, "ok")
+  -- element names travel hex-encoded (they may contain spaces and punctuation), as in the string tokens
+  | "el" :: hn :: ws => match unhex hn.toList, toksOfWords ws with
+    | some cs, some ts => match parse ts with
+      | some p => ({ st with els := st.els ++ [(String.ofList cs, erase p)] }, "ok")
       | none => (st, "parse-error")
-    | none => (st, "bad-op")
+    | _, _ => (st, "bad-op")
   | ["runall"] =>
     let h := simulate st
     (st, ";".intercalate (st.els.map fun (n, _) =>
-      n ++ "=" ++ ",".intercalate (h.toList.map fun row => showV ((row.lookup n).getD (.bad "missing")))))
+      hexStr n ++ "=" ++ ",".intercalate (h.toList.map fun row => showV ((row.lookup n).getD (.bad "missing")))))
   -- the decidable acyclicity criterion of Core/C01 (`modelOKb`, sound by Props `acyclic_of_modelOKb`) on the real
   -- function strings, with the rank function computed from the same-time reference graph
   | ["acyclic"] =>
     let rk := computeRank st.els
     (st, if modelOKb st.els (rankFn rk) then "true" else
-      "false " ++ " ".intercalate ((st.els.filter fun p => !elemOKb st.els (rankFn rk) p.1 p.2).map (·.1)))
+      "false " ++ " ".intercalate ((st.els.filter fun p => !elemOKb st.els (rankFn rk) p.1 p.2).map (hexStr ·.1)))
   | ["solve", ks] => match ks.toNat? with
     | some K =>
-      (st, ";".intercalate ((solveAll st K).map fun (n, vs) => n ++ "=" ++ ",".intercalate (vs.map showV)))
+      (st, ";".intercalate ((solveAll st K).map fun (n, vs) => hexStr n ++ "=" ++ ",".intercalate (vs.map showV)))
     | none => (st, "bad-op")
   | _ => (st, "bad-op")
 
